@@ -305,6 +305,8 @@ def run_job(job: dict) -> dict:
             v = validity(rec["result"], rec["result_text"], universe, consts, max_facts)
             if v is not None:
                 v["culprit"] = _first_invalid_stage(job, rec["stages"], v)
+                if v["culprit"] == "unknown" and v["kind"] == "invalid_ast":
+                    v["culprit"] = _first_invalid_ast_stage(job, cfg, v)
                 cres["violations"].append(v)
         if "semantic" in checks:
             orc = cfg["oracle"]
@@ -362,6 +364,38 @@ def _last_stage(stages) -> str:
     if not stages:
         return "preprocess"
     return "after:" + stages[-1][0]
+
+
+def _first_invalid_ast_stage(job, cfg, v) -> str:
+    """second run of the same execution: load the AST objects of every stage into clingo, name the first that fails"""
+    ngo = _ngo()
+    found: list = []
+    prev = ["\n".join(str(s) for s in parse(job["prog"]))]
+
+    def observer(stage: str, prg: list) -> None:
+        text = prg_text(prg)
+        if not found:
+            try:
+                oracle.solve(asts=prg, universe=job["universe"], consts=job["consts"], max_facts=0)
+            except RuntimeError:
+                found.append(stage)
+                v["before"], v["after"] = prev[0], text
+                v["sig"], v["canon"] = rewrite_signature(prev[0], text)
+            except oracle.CapHit:
+                pass
+        prev[0] = text
+
+    prg = parse(job["prog"])
+    inp_p = to_preds("auto_in" if cfg["inp"] == "auto" else cfg["inp"], prg)
+    out_p = to_preds("auto_out" if cfg["out"] == "auto" else cfg["out"], prg)
+    ngo.api._verif_install(observer)
+    try:
+        ngo.optimize(prg, inp_p, out_p, **flags(cfg["traits"]))
+    except BaseException:  # pylint: disable=broad-except
+        pass
+    finally:
+        ngo.api._verif_install(None)
+    return found[0] if found else "unknown"
 
 
 def _first_invalid_stage(job, stages, v=None) -> str:
